@@ -94,6 +94,29 @@ def check_account(prog, rep, tier):
                     _check_time_increment(rep, owner, f, q, st, inc)
                 else:
                     _check_err_increment(rep, ct, cls, owner, f, q, st, inc)
+    # stepping methods outside the run path (TEBDEngine.update_imag is only reached from run_GS)
+    # advance the clock by the same rule
+    seen = set()
+    for cls in sorted(cone, key=lambda c: c.name):
+        on_path = {id(f) for _, f, _ in closure(ct, cls, 'run_evolution')}
+        for name, f in cls.methods.items():
+            if id(f) in on_path or id(f) in seen or name == '__init__':
+                continue
+            seen.add(id(f))
+            for st in _stores(f, 'evolved_time'):
+                val = st.value
+                q = '%s.%s' % (cls.name, name)
+                if isinstance(st, ast.AugAssign) and isinstance(st.op, ast.Add):
+                    inc = st.value
+                elif isinstance(val, ast.BinOp) and isinstance(val.op, ast.Add) and (
+                        is_self_attr(val.left, 'evolved_time') or
+                        is_self_attr(val.right, 'evolved_time')):
+                    inc = val.right if is_self_attr(val.left, 'evolved_time') else val.left
+                else:
+                    continue      # a reset / restore, not an advance
+                rep.instance('ACCOUNT-evolved_time', {'class': cls.name, 'off_run_path': q,
+                                                      'increment': unparse(inc)})
+                _check_time_increment(rep, cls, f, q, st, inc)
     rep.extra['account_table'] = table
     return table
 
